@@ -12,6 +12,11 @@ class ScriptExhausted(Exception):
     pass
 
 
+class ShimMiss(Exception):
+    """the code under test used a tensor operation this stub does not model: the run says nothing
+    about the property (mapped to a harness error, never to a violation)"""
+
+
 class LT:
     def __init__(self, vals):
         self.v = list(vals)
@@ -42,6 +47,29 @@ class LT:
 
     def __iter__(self):
         return iter(self.v)
+
+    def _ew(self, o, f):
+        if isinstance(o, LT):
+            return LT([f(a, b) for a, b in zip(self.v, o.v)])
+        return LT([f(a, o) for a in self.v])
+
+    def __mod__(self, o):
+        return self._ew(o, lambda a, b: a % b)
+
+    def __add__(self, o):
+        return self._ew(o, lambda a, b: a + b)
+
+    def __sub__(self, o):
+        return self._ew(o, lambda a, b: a - b)
+
+    def __mul__(self, o):
+        return self._ew(o, lambda a, b: a * b)
+
+    def __floordiv__(self, o):
+        return self._ew(o, lambda a, b: a // b)
+
+    def __getattr__(self, name):
+        raise ShimMiss("LT." + name)
 
 
 class Scalar:
@@ -129,6 +157,9 @@ class ScriptTorch:
 
     def empty(self, shape, dtype=None):
         return Scalar(self)
+
+    def __getattr__(self, name):
+        raise ShimMiss("torch." + name)
 
 
 def is_perm(vals, n):
